@@ -81,7 +81,7 @@ _stack = []
 
 
 def plan(tier, seed):
-    n = 120 if tier == 'quick' else 16000
+    n = 1200 if tier == 'quick' else 16000
     cases = [{'idx': i, 'kind': ['synth', 'synth', 'mixed', 'synth'][i % 4]} for i in range(n)]
     cases += [{'idx': n, 'kind': 'kf-multiband-auto'}, {'idx': n + 1, 'kind': 'kf-multiband-auto'}]
     return cases
